@@ -7,7 +7,43 @@
 import CRModel.Frame
 namespace CR.Frame
 
-/-! ### Part A — observation frame -/
+/-! ### Part A — observation frame (of the code as it is: the default variant `Sem.repaired`) -/
+
+/-- what the switches select in the default variant -/
+theorem harmonizeOf_eq : (harmonizeOf : Heap → Nat → List String → List String → Int → Int → Heap × Nat × List String) = harmonize := rfl
+theorem dynByTimeOf_eq (l : Lanelet) (t : Int) : l.dynByTimeOf t = l.dynByTime t := rfl
+theorem mergeRegsOf_eq : (mergeRegsOf : Regs → Regs → Regs × Regs) = mergeRegs := rfl
+theorem pbLook_eq : (pbLook : Option Tbl → Nat → Option Tbl × Res (List Nat)) = goalLanelets := rfl
+
+theorem map_eq_bind_pure {α β : Type} (x : Res α) (f : α → β) : (x >>= fun a => pure (f a)) = f <$> x := by
+  cases x <;> rfl
+
+/-- the repaired occupancy computation hands the trajectory's states back as they were (and computes `createOccs`) -/
+theorem createOccLoop_eq (sh : Int) (ss : List TState) : ∀ i, createOccLoop sh ss i = (ss, createOccs sh ss) := by
+  induction ss with
+  | nil => intro i; rfl
+  | cons s rest ih =>
+    intro i
+    have hsem : instSem.occWritesOrientation = false := rfl
+    simp only [createOccLoop, ih, createOccs, List.mapM_cons, hsem, Bool.false_eq_true, if_false]
+    split
+    · cases h : occOfState sh s with
+      | error e => rfl
+      | ok o => simp only [bind, Except.bind]; rfl
+    · rename_i hattr
+      simp only [occOfState, stateOri, hattr, Bool.false_eq_true, if_false]
+      cases h1 : s.getattr "velocity_y" with
+      | error e => rfl
+      | ok vy =>
+        cases h2 : s.getattr "velocity" with
+        | error e => rfl
+        | ok v =>
+          cases h3 : s.getattr "position" with
+          | error e => rfl
+          | ok p => cases hm : List.mapM (occOfState sh) rest <;> rfl
+
+theorem createOccSet_eq (sh : Int) (ss : List TState) : createOccSet sh ss = (ss, createOccs sh ss) :=
+  createOccLoop_eq sh ss 0
 
 theorem Pred.obs_obs (p : Pred) : p.obs.obs = p.obs := by
   cases p <;> rfl
@@ -18,7 +54,7 @@ theorem Pred.occSet_obs (p : Pred) : p.occSet.1.obs = p.obs := by
   | .setBased _ => rfl
   | .traj _ _ _ (some _) => rfl
   | .traj t1 ss sh none =>
-    simp only [Pred.occSet]
+    simp only [Pred.occSet, createOccSet_eq]
     split <;> rfl
 
 theorem Pred.occAt_obs (p : Pred) (t : Int) : (p.occAt t).1.obs = p.obs := by
@@ -97,13 +133,16 @@ theorem withLight_obs (ls : List Light) (lid : Nat) (t : Int) :
     · simp only [List.map_cons, Light.stateAt_obs]
     · simp only [List.map_cons, ih]
 
-theorem runLightQs_obs (qs : List Nat) (ls : List Light) :
-    (runLightQs qs ls).map Light.obs = ls.map Light.obs := by
+theorem runLightQsAt_obs (t : Int) (qs : List Nat) (ls : List Light) :
+    (runLightQsAt t qs ls).map Light.obs = ls.map Light.obs := by
   induction qs generalizing ls with
   | nil => rfl
   | cons q rest ih =>
-    simp only [runLightQs]
+    simp only [runLightQsAt]
     rw [ih, withLight_obs]
+
+theorem runLightQs_obs (qs : List Nat) (ls : List Light) :
+    (runLightQs qs ls).map Light.obs = ls.map Light.obs := runLightQsAt_obs 0 qs ls
 
 /-- a key that `in` finds is found by the lookup -/
 theorem lookup_of_any {β : Type} (l : List (Nat × β)) (k : Nat) (h : l.any (fun x => x.1 == k) = true) :
@@ -180,8 +219,8 @@ theorem Problem.write_fst (posOnly : Bool) (p : Problem) : (p.write goalLanelets
   simp only [Problem.write, goalLoop_tbl]
 
 theorem Problem.write_ok (posOnly : Bool) (p : Problem) : ∃ x, (p.write goalLanelets posOnly).2 = .ok x := by
-  obtain ⟨l, hl⟩ := goalLoop_ok posOnly p.tbl p.goals 0
-  exact ⟨(p.id, l), by simp only [Problem.write, hl]; rfl⟩
+  obtain ⟨l, hl⟩ := goalLoop_ok posOnly p.tbl p.hasPos 0
+  exact ⟨⟨p.id, p.init.used, p.goals, l⟩, by simp only [Problem.write, hl]; rfl⟩
 
 theorem problemsWrite_fst (posOnly : Bool) (ps : List Problem) : (problemsWrite goalLanelets posOnly ps).1 = ps := by
   induction ps with
@@ -226,6 +265,244 @@ theorem St.write_fst (posOnly wp : Bool) (s : St) : (s.write goalLanelets posOnl
 theorem Net.deepcopy_lanelets (n : Net) : n.deepcopy.1.lanelets = n.lanelets := rfl
 theorem Net.pickle_fst (n : Net) : n.pickle.1 = n := rfl
 
+/-! #### goal checks: the caller's state (slot 0 of the store) is never written -/
+
+theorem harmonize_frame (h : Heap) (r : Nat) (sf gf : List String) (v o : Int) :
+    h.length ≤ (harmonize h r sf gf v o).1.length ∧
+    ∀ i, i < h.length → (harmonize h r sf gf v o).1[i]? = h[i]? := by
+  unfold harmonize
+  simp only []
+  split
+  · split
+    · constructor
+      · simp only [List.length_append, List.length_cons, List.length_nil]; omega
+      · intro i hi
+        rw [List.getElem?_append_left (by simp only [List.length_append, List.length_cons, List.length_nil]; omega),
+            List.getElem?_append_left hi]
+    · constructor
+      · simp only [List.length_modify, List.length_append, List.length_cons, List.length_nil]; omega
+      · intro i hi
+        rw [List.getElem?_modify]
+        have hne : ¬ h.length = i := by omega
+        simp only [hne, if_false, List.getElem?_append_left hi]
+        cases h[i]? <;> rfl
+  · constructor
+    · simp only [List.length_append, List.length_cons, List.length_nil]; omega
+    · intro i hi
+      exact List.getElem?_append_left hi
+
+theorem reachedLoop_frame (r : Nat) (gs : List (List String)) :
+    ∀ (h : Heap) (dec : List (Res Bool)) (i : Nat), i < h.length → (reachedLoop harmonize h r gs dec).1[i]? = h[i]? := by
+  induction gs with
+  | nil => intro h dec i _; rfl
+  | cons g gs ih =>
+    intro h dec i hi
+    have hf := harmonize_frame h r (h.getD r default).fields g (-1) (-2)
+    simp only [reachedLoop]
+    split
+    · exact hf.2 i hi
+    · split
+      · exact hf.2 i hi
+      · rw [ih _ _ i (by omega)]
+        exact hf.2 i hi
+
+/-- `GoalRegion.is_reached` hands the checked state back as it was: same attributes, same order, same values -/
+theorem isReached_fst (goals : List (List String)) (st : TState) (dec : List (Res Bool)) : (isReached goals st dec).1 = st := by
+  have h0 := reachedLoop_frame 0 goals [st] dec 0 (by simp)
+  simp only [isReached, harmonizeOf_eq, List.getD_eq_getElem?_getD, h0]
+  rfl
+
+theorem zipDec_map_fst (ss : List TState) (ds : List (List (Res Bool))) : (zipDec ss ds).map (·.1) = ss := by
+  induction ss generalizing ds with
+  | nil => rfl
+  | cons s ss ih =>
+    cases ds with
+    | nil => simp only [zipDec, List.map_cons, ih]
+    | cons d ds => simp only [zipDec, List.map_cons, ih]
+
+theorem grLoop_fst (goals : List (List String)) (l : List (TState × List (Res Bool))) : (grLoop goals l).1 = l.map (·.1) := by
+  induction l with
+  | nil => rfl
+  | cons x rest ih =>
+    obtain ⟨st, dec⟩ := x
+    simp only [grLoop]
+    split <;> simp only [List.map_cons, isReached_fst, ih]
+
+/-- `PlanningProblem.goal_reached` hands every state of the trajectory back as it was -/
+theorem goalReachedStates_fst (goals : List (List String)) (ss : List TState) (ds : List (List (Res Bool))) :
+    (goalReachedStates goals ss ds).1 = ss := by
+  simp only [goalReachedStates, grLoop_fst, List.map_reverse, List.reverse_reverse, zipDec_map_fst]
+
+theorem set_of_getElem? {α : Type} (l : List α) (k : Nat) (a : α) (h : l[k]? = some a) : l.set k a = l := by
+  induction l generalizing k with
+  | nil => rfl
+  | cons x rest ih =>
+    cases k with
+    | zero =>
+      simp only [List.getElem?_cons_zero, Option.some.injEq] at h
+      simp only [List.set_cons_zero, h]
+    | succ k =>
+      simp only [List.getElem?_cons_succ] at h
+      simp only [List.set_cons_succ, ih k h]
+
+theorem Obstacle.reach_fst (goals : List (List String)) (ix : Option Nat) (dec : List (Res Bool)) (o : Obstacle) :
+    (o.reach goals ix dec).1 = o := by
+  unfold Obstacle.reach
+  split
+  · simp only [isReached_fst]
+  · simp only [isReached_fst]
+  · split
+    · rfl
+    · rename_i st hst
+      simp only [isReached_fst, set_of_getElem? _ _ _ hst]
+  · rfl
+
+theorem Obstacle.goalReach_fst (goals : List (List String)) (decs : List (List (Res Bool))) (o : Obstacle) :
+    (o.goalReach goals decs).1 = o := by
+  unfold Obstacle.goalReach
+  split
+  · simp only [goalReachedStates_fst]
+  · rfl
+
+theorem withObstacle_fst {α : Type} (f : Obstacle → Obstacle × Res α) (hf : ∀ o, (f o).1 = o) (os : List Obstacle) (oid : Nat) :
+    (withObstacle os oid f).1 = os := by
+  induction os with
+  | nil => rfl
+  | cons o rest ih =>
+    simp only [withObstacle]
+    split
+    · simp only [hf]
+    · simp only [ih]
+
+theorem withProblem_fst {α : Type} (f : Problem → Problem × Res α) (hf : ∀ p, (f p).1 = p) (ps : List Problem) (pid : Nat) :
+    (withProblem ps pid f).1 = ps := by
+  induction ps with
+  | nil => rfl
+  | cons p rest ih =>
+    simp only [withProblem]
+    split
+    · simp only [hf]
+    · simp only [ih]
+
+/-! #### operations that read occupancies -/
+
+theorem occQueries_obs (qs : List Q) : ∀ (os : List Obstacle), (occQueries qs os).1.map Obstacle.obs = os.map Obstacle.obs := by
+  induction qs with
+  | nil => intro os; rfl
+  | cons q rest ih =>
+    intro os
+    cases q with
+    | fail e => rfl
+    | occ oid t must =>
+      have h1 := withObstacle_obs _ (fun o => Obstacle.occAt_obs o t) os oid
+      simp only [occQueries]
+      split
+      · exact h1
+      · split
+        · exact h1
+        · rw [ih, h1]
+
+theorem renderLights_obs (tb : Int) (ls : List Light) : (renderLights tb ls).map Light.obs = ls.map Light.obs := by
+  induction ls with
+  | nil => rfl
+  | cons l rest ih =>
+    simp only [renderLights, List.map_cons, ih]
+    split <;> rfl
+
+/-! #### lanelet registries -/
+
+theorem setRegs_self (ls : List Lanelet) (lid : Nat) (l : Lanelet) (h : findLanelet ls lid = some l) :
+    setRegs ls lid l.regs = ls := by
+  induction ls with
+  | nil => rfl
+  | cons x rest ih =>
+    simp only [findLanelet, List.find?_cons] at h
+    simp only [setRegs]
+    split at h
+    · rename_i hx
+      simp only [Option.some.injEq] at h
+      subst h
+      simp only [hx, if_true, Lanelet.regs]
+    · rename_i hx
+      have hx' : (x.id == lid) = false := by simpa using hx
+      simp only [hx', Bool.false_eq_true, if_false]
+      rw [ih h]
+
+theorem Lanelet.dynByTime_fst (l : Lanelet) (t : Int) : (l.dynByTime t).1 = l := by
+  unfold Lanelet.dynByTime
+  split <;> rfl
+
+theorem mergePath_fst_false (ls : List Lanelet) (path : List Nat) :
+    ∀ (first cur : Regs), (mergePath mergeRegs ls first cur false path).1 = first := by
+  induction path with
+  | nil => intro first cur; rfl
+  | cons lid rest ih =>
+    intro first cur
+    simp only [mergePath]
+    split
+    · rfl
+    · exact ih _ _
+
+theorem mergePath_fst (ls : List Lanelet) (path : List Nat) (r : Regs) : (mergePath mergeRegs ls r r true path).1 = r := by
+  cases path with
+  | nil => rfl
+  | cons lid rest =>
+    simp only [mergePath]
+    split
+    · rfl
+    · exact mergePath_fst_false ls rest _ _
+
+/-- merging (after the repair) leaves every lanelet of the network as it was -/
+theorem mergePaths_fst (lid : Nat) (paths : List (List Nat)) (ls : List Lanelet) : (mergePaths mergeRegs lid paths ls).1 = ls := by
+  induction paths with
+  | nil => rfl
+  | cons path rest ih =>
+    simp only [mergePaths]
+    split
+    · rfl
+    · rename_i l hl
+      have e : setRegs ls lid (mergePath mergeRegs ls l.regs l.regs true path).1 = ls := by
+        rw [mergePath_fst]; exact setRegs_self ls lid l hl
+      rw [e]
+      split
+      · rfl
+      · exact ih
+
+theorem Problem.reachInit_fst (dec : List (Res Bool)) (q : Problem) : (q.reachInit dec).1 = q := by
+  simp only [Problem.reachInit, isReached_fst]
+
+/-- goal checks, `==`, `hash`, `copy.copy`, the shape query, the registry query and the merge queries hand back the very
+    state they were given — hidden caches included -/
+theorem step_fst_eq (op : Op) (s : St)
+    (h : (∃ pid loc dec, op = .reached pid loc dec) ∨ (∃ pid src decs, op = .goalReached pid src decs) ∨ (∃ t, op = .eq t) ∨
+         (∃ t, op = .hash t) ∨ (∃ t, op = .shallowCopy t) ∨ (∃ sh, op = .findShape sh) ∨ (∃ lid t, op = .dynByTime lid t) ∨
+         (∃ lid paths, op = .mergeFrom lid paths)) : (step op s).1 = s := by
+  rcases h with ⟨pid, loc, dec, rfl⟩ | ⟨pid, src, decs, rfl⟩ | ⟨t, rfl⟩ | ⟨t, rfl⟩ | ⟨t, rfl⟩ | ⟨sh, rfl⟩ | ⟨lid, t, rfl⟩ | ⟨lid, paths, rfl⟩
+  · simp only [step]
+    split
+    · rfl
+    · cases loc with
+      | foreign st => rfl
+      | obsInit oid => simp only [withObstacle_fst _ (Obstacle.reach_fst _ _ _)]
+      | obsTraj oid i => simp only [withObstacle_fst _ (Obstacle.reach_fst _ _ _)]
+      | probInit => simp only [withProblem_fst _ (Problem.reachInit_fst _)]
+  · simp only [step]
+    split
+    · rfl
+    · cases src with
+      | foreign states => rfl
+      | own oid => simp only [withObstacle_fst _ (Obstacle.goalReach_fst _ _)]
+  · rfl
+  · rfl
+  · rfl
+  · rfl
+  · simp only [step]
+    split
+    · rfl
+    · rename_i l hl
+      simp only [dynByTimeOf_eq, Lanelet.dynByTime_fst, setRegs_self _ _ _ hl]
+  · simp only [step, mergeRegsOf_eq, mergePaths_fst]
+
 /-- **Observation frame**: one read-only operation leaves the observable part of the state as it was. -/
 theorem step_obs (op : Op) (s : St) : (step op s).1.obs = s.obs := by
   cases op with
@@ -254,7 +531,25 @@ theorem step_obs (op : Op) (s : St) : (step op s).1.obs = s.obs := by
   | deepcopy => rfl
   | pickle => rfl
   | writeXml wp => simp only [step, St.write_fst]
-  | writePb wp => simp only [step, St.write_fst]
+  | writePb wp => simp only [step, pbLook_eq, St.write_fst]
+  | reached pid loc dec => rw [step_fst_eq _ s (Or.inl ⟨_, _, _, rfl⟩)]
+  | goalReached pid src decs => rw [step_fst_eq _ s (Or.inr (Or.inl ⟨_, _, _, rfl⟩))]
+  | eq tgt => rfl
+  | hash tgt => rfl
+  | shallowCopy tgt => rfl
+  | byIntervals t inside => simp only [step, St.obs, occQueries_obs]
+  | findShape sh => rfl
+  | mapObstacles oids rel => simp only [step, St.obs, occQueries_obs]
+  | getObstacles lid oids t rel => simp only [step, St.obs, occQueries_obs]
+  | dynByTime lid t => rw [step_fst_eq _ s (Or.inr (Or.inr (Or.inr (Or.inr (Or.inr (Or.inr (Or.inl ⟨_, _, rfl⟩)))))))]
+  | mergeFrom lid paths => rw [step_fst_eq _ s (Or.inr (Or.inr (Or.inr (Or.inr (Or.inr (Or.inr (Or.inr ⟨_, _, rfl⟩)))))))]
+  | draw p =>
+    simp only [step]
+    split
+    · rfl
+    · split
+      · simp only [St.obs, occQueries_obs, runLightQsAt_obs]
+      · simp only [St.obs, occQueries_obs, renderLights_obs, runLightQsAt_obs]
 
 theorem run_obs (ops : List Op) (s : St) : (run ops s).obs = s.obs := by
   induction ops generalizing s with
@@ -272,7 +567,7 @@ theorem Pred.occSet_inv (p : Pred) (h : p.Inv) : p.occSet.1.Inv := by
   | .setBased _, _ => trivial
   | .traj _ _ _ (some _), h => exact h
   | .traj t1 ss sh none, _ =>
-    simp only [Pred.occSet]
+    simp only [Pred.occSet, createOccSet_eq]
     split
     · rename_i c hc
       exact hc
@@ -389,12 +684,43 @@ theorem withLight_inv (ls : List Light) (lid : Nat) (t : Int) (h : ∀ l ∈ ls,
       · exact h _ (by simp)
       · exact ih (fun y hy => h y (by simp [hy])) x hx
 
-theorem runLightQs_inv (qs : List Nat) (ls : List Light) (h : ∀ l ∈ ls, l.Inv) : ∀ l ∈ runLightQs qs ls, l.Inv := by
+theorem runLightQsAt_inv (t : Int) (qs : List Nat) (ls : List Light) (h : ∀ l ∈ ls, l.Inv) : ∀ l ∈ runLightQsAt t qs ls, l.Inv := by
   induction qs generalizing ls with
   | nil => exact h
   | cons q rest ih =>
-    simp only [runLightQs]
-    exact ih _ (withLight_inv ls q 0 h)
+    simp only [runLightQsAt]
+    exact ih _ (withLight_inv ls q t h)
+
+theorem runLightQs_inv (qs : List Nat) (ls : List Light) (h : ∀ l ∈ ls, l.Inv) : ∀ l ∈ runLightQs qs ls, l.Inv :=
+  runLightQsAt_inv 0 qs ls h
+
+theorem occQueries_inv (qs : List Q) : ∀ (os : List Obstacle), (∀ o ∈ os, o.Inv) → ∀ o ∈ (occQueries qs os).1, o.Inv := by
+  induction qs with
+  | nil => intro os h; exact h
+  | cons q rest ih =>
+    intro os h
+    cases q with
+    | fail e => exact h
+    | occ oid t must =>
+      have h1 := withObstacle_inv _ (fun o ho => Obstacle.occAt_inv o t ho) os oid h
+      simp only [occQueries]
+      split
+      · exact h1
+      · split
+        · exact h1
+        · exact ih _ h1
+
+theorem renderLights_inv (tb : Int) (ls : List Light) (h : ∀ l ∈ ls, l.Inv) : ∀ l ∈ renderLights tb ls, l.Inv := by
+  induction ls with
+  | nil => intro l hl; simp [renderLights] at hl
+  | cons l rest ih =>
+    intro x hx
+    simp only [renderLights, List.mem_cons] at hx
+    rcases hx with rfl | hx
+    · split
+      · exact Light.stateAt_inv l tb (h l (by simp))
+      · exact h l (by simp)
+    · exact ih (fun y hy => h y (by simp [hy])) x hx
 
 /-- **Invariant**: one read-only operation keeps every hidden cache consistent with the observable state. -/
 theorem step_inv (op : Op) (s : St) (h : s.Inv) : (step op s).1.Inv := by
@@ -419,7 +745,25 @@ theorem step_inv (op : Op) (s : St) (h : s.Inv) : (step op s).1.Inv := by
   | deepcopy => exact ⟨h.obstacles, Or.inr rfl, h.lights⟩
   | pickle => exact ⟨h.obstacles, h.net, h.lights⟩
   | writeXml wp => simp only [step, St.write_fst]; exact h
-  | writePb wp => simp only [step, St.write_fst]; exact h
+  | writePb wp => simp only [step, pbLook_eq, St.write_fst]; exact h
+  | reached pid loc dec => rw [step_fst_eq _ s (Or.inl ⟨_, _, _, rfl⟩)]; exact h
+  | goalReached pid src decs => rw [step_fst_eq _ s (Or.inr (Or.inl ⟨_, _, _, rfl⟩))]; exact h
+  | eq tgt => exact h
+  | hash tgt => exact h
+  | shallowCopy tgt => exact h
+  | byIntervals t inside => exact ⟨occQueries_inv _ _ h.obstacles, h.net, h.lights⟩
+  | findShape sh => exact h
+  | mapObstacles oids rel => exact ⟨occQueries_inv _ _ h.obstacles, h.net, h.lights⟩
+  | getObstacles lid oids t rel => exact ⟨occQueries_inv _ _ h.obstacles, h.net, h.lights⟩
+  | dynByTime lid t => rw [step_fst_eq _ s (Or.inr (Or.inr (Or.inr (Or.inr (Or.inr (Or.inr (Or.inl ⟨_, _, rfl⟩)))))))]; exact h
+  | mergeFrom lid paths => rw [step_fst_eq _ s (Or.inr (Or.inr (Or.inr (Or.inr (Or.inr (Or.inr (Or.inr ⟨_, _, rfl⟩)))))))]; exact h
+  | draw p =>
+    simp only [step]
+    split
+    · exact h
+    · split
+      · exact ⟨occQueries_inv _ _ h.obstacles, h.net, runLightQsAt_inv _ _ _ h.lights⟩
+      · exact ⟨occQueries_inv _ _ h.obstacles, h.net, renderLights_inv _ _ (runLightQsAt_inv _ _ _ h.lights)⟩
 
 theorem run_inv (ops : List Op) (s : St) (h : s.Inv) : (run ops s).Inv := by
   induction ops generalizing s with
@@ -434,7 +778,16 @@ theorem step_index (op : Op) (s : St) (h : s.net.index = some s.net.lanelets) :
   | statesAt t => simp only [step]; split <;> exact h
   | deepcopy => rfl
   | writeXml wp => simp only [step, St.write_fst]; exact h
-  | writePb wp => simp only [step, St.write_fst]; exact h
+  | writePb wp => simp only [step, pbLook_eq, St.write_fst]; exact h
+  | reached pid loc dec => rw [step_fst_eq _ s (Or.inl ⟨_, _, _, rfl⟩)]; exact h
+  | goalReached pid src decs => rw [step_fst_eq _ s (Or.inr (Or.inl ⟨_, _, _, rfl⟩))]; exact h
+  | dynByTime lid t => rw [step_fst_eq _ s (Or.inr (Or.inr (Or.inr (Or.inr (Or.inr (Or.inr (Or.inl ⟨_, _, rfl⟩)))))))]; exact h
+  | mergeFrom lid paths => rw [step_fst_eq _ s (Or.inr (Or.inr (Or.inr (Or.inr (Or.inr (Or.inr (Or.inr ⟨_, _, rfl⟩)))))))]; exact h
+  | draw p =>
+    simp only [step]
+    split
+    · exact h
+    · split <;> exact h
   | _ => exact h
 
 theorem run_index (ops : List Op) (s : St) (h : s.net.index = some s.net.lanelets) :
@@ -460,8 +813,8 @@ theorem Pred.occSet_snd (p : Pred) (h : p.Inv) : p.occSet.2 = p.obs.occSet.2 := 
   | .setBased _, _ => rfl
   | .traj _ _ _ none, _ => rfl
   | .traj t1 ss sh (some c), h =>
-    have h' : createOccSet sh ss = .ok c := h
-    simp only [Pred.obs, Pred.occSet, h']
+    have h' : createOccs sh ss = .ok c := h
+    simp only [Pred.obs, Pred.occSet, createOccSet_eq, h']
 
 theorem Pred.occAt_snd (p : Pred) (t : Int) (h : p.Inv) : (p.occAt t).2 = (p.obs.occAt t).2 := by
   simp only [Pred.occAt, Pred.occSet_snd p h]
@@ -612,7 +965,20 @@ theorem St.write_snd_congr (look : Option Tbl → Nat → Option Tbl × Res (Lis
   have e2 : s.problems = s'.problems := by
     have : s.obs.problems = s'.obs.problems := congrArg St.problems e
     exact this
-  simp only [St.write, e1, e2]
+  have e3 : s.net.lanelets = s'.net.lanelets := congrArg (fun x => x.net.lanelets) e
+  have e4 : s.extra = s'.extra := by
+    have : s.obs.extra = s'.obs.extra := congrArg St.extra e
+    exact this
+  have e5 : s.lights.map Light.file = s'.lights.map Light.file := by
+    have h := congrArg (fun x => x.lights.map Light.file) e
+    have hm : ∀ ls : List Light, (ls.map Light.obs).map Light.file = ls.map Light.file := by
+      intro ls
+      rw [List.map_map]
+      apply List.map_congr_left
+      intro l _
+      rfl
+    simpa only [St.obs, hm] using h
+  simp only [St.write, e1, e2, e3, e4, e5]
   cases wp <;> rfl
 
 theorem St.obs_obs (s : St) : s.obs.obs = s.obs := by
@@ -658,6 +1024,108 @@ theorem St.obs_with_net (s : St) (n : Net) (hn : n.lanelets = s.net.lanelets) : 
 
 theorem Net.findPos_norm (s : St) (h : s.Inv) (pts : List Int) : s.net.findPos pts = s.norm.net.findPos pts := by
   rcases h.net with hn | hn <;> simp [Net.findPos, St.norm, hn]
+
+theorem Obstacle.reach_snd_obs (goals : List (List String)) (ix : Option Nat) (dec : List (Res Bool)) (o : Obstacle) :
+    (o.reach goals ix dec).2 = (o.obs.reach goals ix dec).2 := by
+  match o, ix with
+  | .static _ _ _, none => rfl
+  | .static _ _ _, some _ => rfl
+  | .environment _ _, _ => rfl
+  | .phantom _ _, _ => rfl
+  | .dynamic _ _ _ _, none => rfl
+  | .dynamic _ _ _ .absent, some _ => rfl
+  | .dynamic _ _ _ (.setBased _), some _ => rfl
+  | .dynamic _ _ _ (.traj _ ss _ _), some k =>
+    simp only [Obstacle.obs, Pred.obs, Obstacle.reach]
+    split <;> rfl
+
+theorem Obstacle.goalReach_snd_obs (goals : List (List String)) (decs : List (List (Res Bool))) (o : Obstacle) :
+    (o.goalReach goals decs).2 = (o.obs.goalReach goals decs).2 := by
+  match o with
+  | .static _ _ _ => rfl
+  | .environment _ _ => rfl
+  | .phantom _ _ => rfl
+  | .dynamic _ _ _ .absent => rfl
+  | .dynamic _ _ _ (.setBased _) => rfl
+  | .dynamic _ _ _ (.traj _ _ _ _) => rfl
+
+/-- two consistent obstacle lists with the same observable part answer a query alike -/
+theorem withObstacle_snd_congr {α : Type} (f : Obstacle → Obstacle × Res α) (hf : ∀ o, o.Inv → (f o).2 = (f o.obs).2)
+    (os os' : List Obstacle) (oid : Nat) (h : ∀ o ∈ os, o.Inv) (h' : ∀ o ∈ os', o.Inv)
+    (e : os.map Obstacle.obs = os'.map Obstacle.obs) : (withObstacle os oid f).2 = (withObstacle os' oid f).2 := by
+  rw [withObstacle_snd f hf os oid h, withObstacle_snd f hf os' oid h', e]
+
+theorem occQueries_snd_congr (qs : List Q) : ∀ (os os' : List Obstacle), (∀ o ∈ os, o.Inv) → (∀ o ∈ os', o.Inv) →
+    os.map Obstacle.obs = os'.map Obstacle.obs → (occQueries qs os).2 = (occQueries qs os').2 := by
+  induction qs with
+  | nil => intro os os' _ _ _; rfl
+  | cons q rest ih =>
+    intro os os' h h' e
+    cases q with
+    | fail e => rfl
+    | occ oid t must =>
+      have ea := withObstacle_snd_congr _ (fun o ho => Obstacle.occAt_snd o t ho) os os' oid h h' e
+      have hi := withObstacle_inv _ (fun o ho => Obstacle.occAt_inv o t ho) os oid h
+      have hi' := withObstacle_inv _ (fun o ho => Obstacle.occAt_inv o t ho) os' oid h'
+      have eo : (withObstacle os oid (fun o => o.occAt t)).1.map Obstacle.obs = (withObstacle os' oid (fun o => o.occAt t)).1.map Obstacle.obs := by
+        rw [withObstacle_obs _ (fun o => Obstacle.occAt_obs o t), withObstacle_obs _ (fun o => Obstacle.occAt_obs o t), e]
+      have er := ih _ _ hi hi' eo
+      simp only [occQueries]
+      rw [← ea, ← er]
+      split
+      · rfl
+      · split <;> rfl
+
+theorem obs_list_inv (os : List Obstacle) : ∀ o ∈ os.map Obstacle.obs, o.Inv := by
+  intro o ho
+  simp only [List.mem_map] at ho
+  obtain ⟨o', _, rfl⟩ := ho
+  exact Obstacle.obs_inv o'
+
+theorem map_obs_obs (os : List Obstacle) : (os.map Obstacle.obs).map Obstacle.obs = os.map Obstacle.obs := by
+  rw [List.map_map]
+  apply List.map_congr_left
+  intro o _
+  exact Obstacle.obs_obs o
+
+theorem occQueries_snd (qs : List Q) (os : List Obstacle) (h : ∀ o ∈ os, o.Inv) :
+    (occQueries qs os).2 = (occQueries qs (os.map Obstacle.obs)).2 :=
+  occQueries_snd_congr qs os _ h (obs_list_inv os) (map_obs_obs os).symm
+
+theorem filter_role_ids_obs (r : Role) (os : List Obstacle) :
+    ((os.map Obstacle.obs).filter (fun o => o.role == r)).map (·.id) = (os.filter (fun o => o.role == r)).map (·.id) := by
+  induction os with
+  | nil => rfl
+  | cons o rest ih =>
+    simp only [List.map_cons, List.filter_cons, Obstacle.obs_role]
+    split
+    · simp only [List.map_cons, Obstacle.obs_id, ih]
+    · exact ih
+
+theorem byIntervalsQs_obs (t : Int) (os : List Obstacle) : byIntervalsQs t (os.map Obstacle.obs) = byIntervalsQs t os := by
+  induction os with
+  | nil => rfl
+  | cons o rest ih =>
+    simp only [byIntervalsQs, List.map_cons, List.filter_cons, Obstacle.obs_role] at ih ⊢
+    split
+    · simp only [List.map_cons, Obstacle.obs_id, ih]
+    · exact ih
+
+theorem dynDrawQs_obs (p : DrawP) (i : Nat) (init : TState) (pr : Pred) : dynDrawQs p i init pr.obs = dynDrawQs p i init pr := by
+  cases pr <;> rfl
+
+theorem drawQs_obs (p : DrawP) (os : List Obstacle) : drawQs p (os.map Obstacle.obs) = drawQs p os := by
+  induction os with
+  | nil => rfl
+  | cons o rest ih =>
+    cases o <;> simp only [List.map_cons, Obstacle.obs, drawQs, ih, dynDrawQs_obs]
+
+theorem Net.findShape_norm (s : St) (h : s.Inv) (sh : Int) : s.net.findShape sh = s.norm.net.findShape sh := by
+  rcases h.net with hn | hn <;> simp [Net.findShape, St.norm, hn]
+
+theorem norm_obstacles (s : St) : s.norm.obstacles = s.obstacles.map Obstacle.obs := rfl
+theorem norm_problems (s : St) : s.norm.problems = s.problems := rfl
+theorem norm_lanelets (s : St) : s.norm.net.lanelets = s.net.lanelets := rfl
 
 /-- under the invariant, the (observable part of the) answer of an operation is the answer on the canonical state -/
 theorem step_snd_norm (op : Op) (s : St) (h : s.Inv) :
@@ -709,8 +1177,62 @@ theorem step_snd_norm (op : Op) (s : St) (h : s.Inv) :
     simp only [step]
     rw [St.write_snd_congr goalLanelets true wp s s.norm (St.norm_obs s).symm]
   | writePb wp =>
-    simp only [step]
+    simp only [step, pbLook_eq]
     rw [St.write_snd_congr goalLanelets false wp s s.norm (St.norm_obs s).symm]
+  | reached pid loc dec =>
+    simp only [step, norm_problems, norm_obstacles]
+    split
+    · rfl
+    · cases loc with
+      | foreign st => rfl
+      | obsInit oid =>
+        simp only []
+        rw [withObstacle_snd _ (fun o _ => Obstacle.reach_snd_obs _ _ _ o) _ _ h.obstacles]
+      | obsTraj oid i =>
+        simp only []
+        rw [withObstacle_snd _ (fun o _ => Obstacle.reach_snd_obs _ _ _ o) _ _ h.obstacles]
+      | probInit => rfl
+  | goalReached pid src decs =>
+    simp only [step, norm_problems, norm_obstacles]
+    split
+    · rfl
+    · cases src with
+      | foreign states => rfl
+      | own oid =>
+        simp only []
+        rw [withObstacle_snd _ (fun o _ => Obstacle.goalReach_snd_obs _ _ o) _ _ h.obstacles]
+  | eq tgt => rfl
+  | hash tgt => rfl
+  | shallowCopy tgt =>
+    simp only [step, Except.map, Out.obs]
+    by_cases ht : tgt = .net
+    · have e1 := St.obs_with_net s s.net.pickle.2 rfl
+      have e2 := St.obs_with_net s.norm s.norm.net.pickle.2 rfl
+      simp only [ht, if_true]
+      rw [e1, e2, St.norm_obs]
+    · simp only [ht, if_false, St.norm_obs]
+  | byIntervals t inside =>
+    simp only [step, norm_obstacles, byIntervalsQs_obs, filter_role_ids_obs]
+    rw [occQueries_snd _ _ h.obstacles]
+  | findShape sh =>
+    simp only [step]
+    rw [Net.findShape_norm s h sh]
+  | mapObstacles oids rel =>
+    simp only [step, norm_obstacles, norm_lanelets]
+    rw [occQueries_snd _ _ h.obstacles]
+  | getObstacles lid oids t rel =>
+    simp only [step, norm_obstacles]
+    rw [occQueries_snd _ _ h.obstacles]
+  | dynByTime lid t =>
+    simp only [step, norm_lanelets]
+    split <;> rfl
+  | mergeFrom lid paths => rfl
+  | draw p =>
+    simp only [step, norm_obstacles, drawQs_obs]
+    split
+    · rfl
+    · rw [occQueries_snd _ _ h.obstacles]
+      split <;> rfl
 
 /-- two consistent states with the same observable part (and the lanelet index built in both or in neither) give the
     same answer to every operation -/
@@ -718,5 +1240,93 @@ theorem answer_congr (op : Op) (s s' : St) (h : s.Inv) (h' : s'.Inv) (e : s.obs 
     (hi : s.net.index.isSome = s'.net.index.isSome) :
     (step op s).2.map Out.obs = (step op s').2.map Out.obs := by
   rw [step_snd_norm op s h, step_snd_norm op s' h', St.norm_congr s s' e hi]
+
+/-! ### Part D — the other variants of the code DO change the observable state (families of witnesses) -/
+
+/-- the heading-carrying object of state `s` standing at index `i` -/
+def withOri (s : TState) (i : Nat) : TState := { s with attrs := s.attrs ++ [("orientation", some (-1 - (i : Int)))] }
+
+theorem withOri_ne (s : TState) (i : Nat) : withOri s i ≠ s := by
+  intro h
+  have := congrArg (fun x => x.attrs.length) h
+  simp [withOri] at this
+
+/-- legacy `_create_occupancy_set`: a first state without `orientation` whose heading can be computed is replaced by the
+    object carrying the heading, whatever comes after it and whether or not the computation succeeds in the end -/
+theorem createOccLoop_legacy_head (sh : Int) (st : TState) (ss : List TState) (i : Nat) (ori : Ori)
+    (h1 : st.hasattr "orientation" = false) (h2 : stateOri st = .ok ori) :
+    ∃ tl, (createOccLoop (sem := Sem.legacy) sh (st :: ss) i).1 = withOri st i :: tl := by
+  simp only [createOccLoop, h1, h2, Bool.false_eq_true, if_false, if_true, withOri]
+  split
+  · exact ⟨_, rfl⟩
+  · exact ⟨_, rfl⟩
+
+theorem Pred.occSet_legacy_head (t1 : Int) (sh : Int) (st : TState) (ss : List TState) (ori : Ori)
+    (h1 : st.hasattr "orientation" = false) (h2 : stateOri st = .ok ori) :
+    ∃ tl c, (Pred.occSet (sem := Sem.legacy) (.traj t1 (st :: ss) sh none)).1 = .traj t1 (withOri st 0 :: tl) sh c := by
+  obtain ⟨tl, htl⟩ := createOccLoop_legacy_head sh st ss 0 ori h1 h2
+  simp only [Pred.occSet, createOccSet]
+  split
+  · exact ⟨tl, _, by rw [htl]⟩
+  · exact ⟨tl, _, by rw [htl]⟩
+
+/-- legacy protobuf lookup on a `defaultdict` table: it never fails, the table only grows, and it grows as soon as one goal
+    index is missing -/
+theorem goalLoopOld_dflt (posOnly : Bool) : ∀ (goals : List Bool) (items : List (Nat × List Nat)) (i : Nat),
+    ∃ items', (goalLoop goalLaneletsOld posOnly (some ⟨.dflt, items⟩) goals i).1 = some ⟨.dflt, items'⟩ ∧
+      items.length ≤ items'.length ∧
+      ((∃ k, k < goals.length ∧ items.lookup (i + k) = none) → items.length < items'.length) := by
+  intro goals
+  induction goals with
+  | nil => intro items i; exact ⟨items, rfl, Nat.le_refl _, fun ⟨k, hk, _⟩ => absurd hk (by simp)⟩
+  | cons g rest ih =>
+    intro items i
+    cases hl : items.lookup i with
+    | some v =>
+      obtain ⟨items', h1, h2, h3⟩ := ih items (i + 1)
+      refine ⟨items', ?_, h2, ?_⟩
+      · simp only [goalLoop, goalLaneletsOld, Tbl.getItem, hl, h1]
+      · rintro ⟨k, hk, hnone⟩
+        cases k with
+        | zero => simp [hl] at hnone
+        | succ k =>
+          apply h3
+          exact ⟨k, by simpa using hk, by rw [show i + 1 + k = i + (k + 1) by omega]; exact hnone⟩
+    | none =>
+      obtain ⟨items', h1, h2, _⟩ := ih (items ++ [(i, [])]) (i + 1)
+      refine ⟨items', ?_, ?_, ?_⟩
+      · simp only [goalLoop, goalLaneletsOld, Tbl.getItem, hl, h1]
+      · simp only [List.length_append, List.length_cons, List.length_nil] at h2; omega
+      · intro _
+        simp only [List.length_append, List.length_cons, List.length_nil] at h2; omega
+
+/-- legacy protobuf lookup on a plain `dict` with a missing goal index: KeyError, table untouched -/
+theorem goalLoopOld_plain (posOnly : Bool) : ∀ (goals : List Bool) (items : List (Nat × List Nat)) (i : Nat),
+    (∃ k, k < goals.length ∧ items.lookup (i + k) = none) →
+    (goalLoop goalLaneletsOld posOnly (some ⟨.plain, items⟩) goals i).2 = .error .key ∧
+    (goalLoop goalLaneletsOld posOnly (some ⟨.plain, items⟩) goals i).1 = some ⟨.plain, items⟩ := by
+  intro goals
+  induction goals with
+  | nil => intro items i ⟨k, hk, _⟩; exact absurd hk (by simp)
+  | cons g rest ih =>
+    intro items i ⟨k, hk, hnone⟩
+    cases hl : items.lookup i with
+    | none => constructor <;> simp only [goalLoop, goalLaneletsOld, Tbl.getItem, hl]
+    | some v =>
+      cases k with
+      | zero => simp [hl] at hnone
+      | succ k =>
+        have := ih items (i + 1) ⟨k, by simpa using hk, by rw [show i + 1 + k = i + (k + 1) by omega]; exact hnone⟩
+        constructor
+        · simp only [goalLoop, goalLaneletsOld, Tbl.getItem, hl, this.1]; rfl
+        · simp only [goalLoop, goalLaneletsOld, Tbl.getItem, hl, this.2]
+
+theorem unionIds_length (a b : List Nat) (x : Nat) (hx : x ∈ b) (hn : x ∉ a) : a.length < (unionIds a b).length := by
+  have : x ∈ b.filter (fun y => !a.contains y) := by
+    simp only [List.mem_filter, hx, true_and, Bool.not_eq_true', List.contains_eq_mem, decide_eq_false_iff_not]
+    exact hn
+  have hpos : 0 < (b.filter (fun y => !a.contains y)).length := List.length_pos_of_mem this
+  simp only [unionIds, List.length_append]
+  omega
 
 end CR.Frame
